@@ -670,13 +670,13 @@ func arithRejectRule(c *Ctx, rule string) int {
 		}
 		var args []sval
 		for _, p := range na.Params {
-			args = append(args, symv(p.Name()))
+			args = append(args, symv(pname(p)))
 		}
 		outs, ab := cfg.run(na, args)
 		if ab != "" || len(outs) == 0 || len(na.Params) != 4 {
 			r.Undecided(rule, "newArithmeticExpr rejections", t.Pos(na.Pos()), "the constructor could not be specialised: "+ab)
 		} else {
-			divisor, dividend := na.Params[2].Name(), na.Params[1].Name()
+			divisor, dividend := pname(na.Params[2]), pname(na.Params[1])
 			seen := map[string]bool{}
 			for _, o := range outs {
 				if len(o.Vals) != 1 || !o.Vals[0].nil {
@@ -747,7 +747,7 @@ func foldSignSpec(c *Ctx, nu *ssa.Function, sub int64) int {
 	if len(nu.Params) != 3 {
 		return 0
 	}
-	opN, rN := nu.Params[1].Name(), nu.Params[2].Name()
+	opN, rN := pname(nu.Params[1]), pname(nu.Params[2])
 	for _, kind := range []string{"FloatLiteral", "IntegerLiteral"} {
 		k, ok := s2k[kind]
 		if !ok {
